@@ -12,8 +12,8 @@
 (***************************************************************************)
 EXTENDS Robs, TLC, Json, IOUtils
 Rec == ndJsonDeserialize(IOEnv.TRACE)
-VARIABLES l, cfg, hist, mIdx, mSt, fold, cIdx, cComplete, isDone, dropped, cut, lst, bad
-vars == <<l, cfg, hist, mIdx, mSt, fold, cIdx, cComplete, isDone, dropped, cut, lst, bad>>
+VARIABLES l, cfg, hist, mIdx, mSt, fold, cIdx, cComplete, isDone, dropped, cut, lst, mexp, bad
+vars == <<l, cfg, hist, mIdx, mSt, fold, cIdx, cComplete, isDone, dropped, cut, lst, mexp, bad>>
 Ev == Rec[l]
 Checked(p) == IOEnv.CHECK = "ALL" \/ p = IOEnv.CHECK \/ p = "TOOL"
 Flag(p, why) == IF bad = <<>> /\ Checked(p) /\ PrintT("VIOLATION property=" \o p \o " line=" \o ToString(l) \o " reason=" \o why) THEN <<p, why, l>> ELSE bad
@@ -35,16 +35,45 @@ Allowed(k) == CASE cfg.case = "lag" -> k = "Lagged"
                 [] cfg.case = "cut" -> k \in {"RemoteReceive", "RemoteConnect", "RemoteListen", "Closed"}
                 [] OTHER -> FALSE
 Init == /\ l = 1 /\ cfg = [coll |-> "vec", case |-> "plain"] /\ hist = <<>> /\ mIdx = 1 /\ mSt = "run" /\ fold = <<>> /\ cIdx = 1 /\ cComplete = FALSE
-        /\ isDone = FALSE /\ dropped = FALSE /\ cut = FALSE /\ lst = [pushed |-> 0, n |-> <<>>] /\ bad = <<>>
+        /\ isDone = FALSE /\ dropped = FALSE /\ cut = FALSE /\ lst = [pushed |-> 0, n |-> <<>>] /\ mexp = [on |-> FALSE, st |-> <<>>, broken |-> FALSE, h |-> <<>>] /\ bad = <<>>
 Reset == /\ Is("reset") /\ cfg' = [coll |-> Ev.coll, case |-> Ev.case] /\ hist' = <<>> /\ mIdx' = 1 /\ mSt' = "run" /\ fold' = <<>> /\ cIdx' = 1
-         /\ cComplete' = FALSE /\ isDone' = FALSE /\ dropped' = FALSE /\ cut' = FALSE /\ lst' = [pushed |-> 0, n |-> <<>>] /\ bad' = bad
+         /\ cComplete' = FALSE /\ isDone' = FALSE /\ dropped' = FALSE /\ cut' = FALSE /\ lst' = [pushed |-> 0, n |-> <<>>]
+         /\ mexp' = [on |-> FALSE, st |-> <<>>, broken |-> FALSE, h |-> <<>>] /\ bad' = bad
 State == /\ Is("e_state") /\ hist' = Append(hist, Value(kind, Ev.obs))
-         /\ UNCHANGED <<cfg, mIdx, mSt, fold, cIdx, cComplete, isDone, dropped, cut, lst, bad>>
+         /\ UNCHANGED <<cfg, mIdx, mSt, fold, cIdx, cComplete, isDone, dropped, cut, lst, mexp, bad>>
 Sub == /\ Is("e_sub") /\ cComplete' = Ev.has_initial /\ cIdx' = Len(hist) /\ mIdx' = Len(hist)
        /\ fold' = IF Ev.has_initial THEN Value(kind, Ev.initial) ELSE (IF Keyed(kind) THEN Empty ELSE <<>>)
        /\ bad' = FirstOf(<< <<Ev.has_initial /\ Value(kind, Ev.initial) # Last, "snapshot of a subscription differs from the collection">> >>)
-       /\ UNCHANGED <<cfg, hist, mSt, isDone, dropped, cut, lst>>
-Mirror == /\ Is("e_mirror")
+       /\ UNCHANGED <<cfg, hist, mSt, isDone, dropped, cut, lst, mexp>>
+\* ---- "an event does not apply": the mirror starts empty (its snapshot was taken away); what it must show is the fold of
+\* the events Robs!Emits derives from the logged operations, up to the first event that does not apply
+Stripped == /\ Is("e_sub_stripped") /\ mexp' = [on |-> TRUE, st |-> <<>>, broken |-> FALSE, h |-> << <<>> >>]
+            /\ UNCHANGED <<cfg, hist, mIdx, mSt, fold, cIdx, cComplete, isDone, dropped, cut, lst, bad>>
+RECURSIVE FoldOK(_, _, _)
+\* <<state, broken>> after applying the events es to st
+FoldOK(st, es, broken) == IF es = <<>> \/ broken THEN <<st, broken>>
+                          ELSE IF SeqEventOK(st, es[1]) THEN FoldOK(SeqApplyEvent(st, es[1]), Tail(es), FALSE) ELSE <<st, TRUE>>
+OpEv == /\ Is("e_op")
+        /\ LET evs == SeqEmits(kind, Last, Ev.op)
+               r == FoldOK(mexp.st, evs, mexp.broken) IN
+           mexp' = [mexp EXCEPT !.st = r[1], !.broken = r[2], !.h = IF r[2] THEN mexp.h ELSE Append(mexp.h, r[1])]
+        /\ UNCHANGED <<cfg, hist, mIdx, mSt, fold, cIdx, cComplete, isDone, dropped, cut, lst, bad>>
+MirrorStripped == /\ Is("e_mirror") /\ mexp.on
+                  /\ mSt' = IF Ev.done THEN "done" ELSE mSt
+                  /\ LET v == Ev.contents IN
+                     bad' = FirstOf(<<
+                          <<mexp.broken, "mirror went on presenting contents after an event that does not apply to it (no InvalidIndex reported)">>,
+                          <<~mexp.broken /\ v # mexp.st, "mirror built from the events differs from what the events give">> >>)
+                  /\ UNCHANGED <<cfg, hist, mIdx, fold, cIdx, cComplete, isDone, dropped, cut, lst, mexp>>
+MirrorErrStripped == /\ Is("e_mirror_err") /\ mexp.on /\ mSt' = "err"
+                     /\ bad' = FirstOf(<<
+                          <<~mexp.broken, "mirror reports an error although every event applied to it">>,
+                          <<Ev.kind # "InvalidIndex", "mirror reports " \o Ev.kind \o " for an event that does not apply (expected InvalidIndex)">> >>)
+                     /\ UNCHANGED <<cfg, hist, mIdx, fold, cIdx, cComplete, isDone, dropped, cut, lst, mexp>>
+DetachStripped == /\ Is("e_detach") /\ mexp.on
+                  /\ bad' = FirstOf(<< <<Ev.contents # mexp.st, "contents retrievable from the mirror are not its last consistent contents">> >>)
+                  /\ UNCHANGED <<cfg, hist, mIdx, mSt, fold, cIdx, cComplete, isDone, dropped, cut, lst, mexp>>
+Mirror == /\ Is("e_mirror") /\ ~mexp.on
           /\ LET v == Value(kind, Ev.contents)  j == Find(v, mIdx) IN
              /\ mIdx' = IF Ev.complete /\ j > 0 THEN j ELSE mIdx
              /\ mSt' = IF Ev.done THEN "done" ELSE mSt
@@ -53,19 +82,19 @@ Mirror == /\ Is("e_mirror")
                   <<Ev.done /\ ~isDone, "mirror reports done although the collection was not marked done">>,
                   <<Ev.done /\ v # Last, "mirror reports done with contents that differ from the final collection (silent divergence)">>,
                   <<mSt = "err", "mirror presents contents after it reported an error">> >>)
-          /\ UNCHANGED <<cfg, hist, fold, cIdx, cComplete, isDone, dropped, cut, lst>>
-MirrorErr == /\ Is("e_mirror_err") /\ mSt' = "err"
+          /\ UNCHANGED <<cfg, hist, fold, cIdx, cComplete, isDone, dropped, cut, lst, mexp>>
+MirrorErr == /\ Is("e_mirror_err") /\ ~mexp.on /\ mSt' = "err"
              /\ bad' = FirstOf(<< <<~Allowed(Ev.kind), "mirror reports an error of a kind that nothing in the scenario explains: " \o Ev.kind>> >>)
-             /\ UNCHANGED <<cfg, hist, mIdx, fold, cIdx, cComplete, isDone, dropped, cut, lst>>
+             /\ UNCHANGED <<cfg, hist, mIdx, fold, cIdx, cComplete, isDone, dropped, cut, lst, mexp>>
 MirrorAgain == /\ Is("e_mirror_again")
                /\ bad' = FirstOf(<< <<~Ev.err, "mirror stopped reporting its error (presents contents again)">> >>)
-               /\ UNCHANGED <<cfg, hist, mIdx, mSt, fold, cIdx, cComplete, isDone, dropped, cut, lst>>
-Detach == /\ Is("e_detach")
+               /\ UNCHANGED <<cfg, hist, mIdx, mSt, fold, cIdx, cComplete, isDone, dropped, cut, lst, mexp>>
+Detach == /\ Is("e_detach") /\ ~mexp.on
           /\ LET v == Value(kind, Ev.contents) IN
              bad' = FirstOf(<<
                   <<mSt = "done" /\ v # Last, "detached contents of a finished mirror differ from the final collection">>,
                   <<mSt = "err" /\ mIdx > 1 /\ Find(v, mIdx) = 0 /\ Find(v, 1) = 0, "contents retrievable after an error are not a state the collection was in">> >>)
-          /\ UNCHANGED <<cfg, hist, mIdx, mSt, fold, cIdx, cComplete, isDone, dropped, cut, lst>>
+          /\ UNCHANGED <<cfg, hist, mIdx, mSt, fold, cIdx, cComplete, isDone, dropped, cut, lst, mexp>>
 ConsEv == /\ Is("e_ev")
           /\ LET e == EvOf(Ev.e)
                  ok == EventOK(kind, fold, e)
@@ -77,48 +106,48 @@ ConsEv == /\ Is("e_ev")
              /\ bad' = FirstOf(<<
                   <<~ok, "received event does not apply to the contents built from the events so far">>,
                   <<compl /\ j = 0, "consuming the events gives contents the collection was never in (event skipped without an error)">> >>)
-          /\ UNCHANGED <<cfg, hist, mIdx, mSt, isDone, dropped, cut, lst>>
+          /\ UNCHANGED <<cfg, hist, mIdx, mSt, isDone, dropped, cut, lst, mexp>>
 ConsEnd == /\ Is("e_ev_end")
            /\ bad' = FirstOf(<<
                 <<~isDone, "event stream ended although the collection was not marked done">>,
                 <<fold # Last, "event stream ended normally but the contents built from it differ from the final collection (silent divergence)">> >>)
-           /\ UNCHANGED <<cfg, hist, mIdx, mSt, fold, cIdx, cComplete, isDone, dropped, cut, lst>>
+           /\ UNCHANGED <<cfg, hist, mIdx, mSt, fold, cIdx, cComplete, isDone, dropped, cut, lst, mexp>>
 ConsErr == /\ Is("e_ev_err")
            /\ bad' = FirstOf(<< <<~Allowed(Ev.kind), "subscription reports an error of a kind that nothing in the scenario explains: " \o Ev.kind>> >>)
-           /\ UNCHANGED <<cfg, hist, mIdx, mSt, fold, cIdx, cComplete, isDone, dropped, cut, lst>>
-Done == /\ Is("e_done") /\ isDone' = TRUE /\ UNCHANGED <<cfg, hist, mIdx, mSt, fold, cIdx, cComplete, dropped, cut, lst, bad>>
-Drop == /\ Is("e_drop") /\ dropped' = TRUE /\ UNCHANGED <<cfg, hist, mIdx, mSt, fold, cIdx, cComplete, isDone, cut, lst, bad>>
-Fault == /\ Is("fault") /\ cut' = TRUE /\ UNCHANGED <<cfg, hist, mIdx, mSt, fold, cIdx, cComplete, isDone, dropped, lst, bad>>
+           /\ UNCHANGED <<cfg, hist, mIdx, mSt, fold, cIdx, cComplete, isDone, dropped, cut, lst, mexp>>
+Done == /\ Is("e_done") /\ isDone' = TRUE /\ UNCHANGED <<cfg, hist, mIdx, mSt, fold, cIdx, cComplete, dropped, cut, lst, mexp, bad>>
+Drop == /\ Is("e_drop") /\ dropped' = TRUE /\ UNCHANGED <<cfg, hist, mIdx, mSt, fold, cIdx, cComplete, isDone, cut, lst, mexp, bad>>
+Fault == /\ Is("fault") /\ cut' = TRUE /\ UNCHANGED <<cfg, hist, mIdx, mSt, fold, cIdx, cComplete, isDone, dropped, lst, mexp, bad>>
 End == /\ Is("e_end")
        /\ bad' = FirstOf(<<
             <<Ev.pending > 0, "mirror or subscriber neither finished nor failed (hang)">>,
             <<"skipped" \notin DOMAIN Ev /\ mSt = "run", "harness: mirror observer ended without a verdict">> >>)
-       /\ UNCHANGED <<cfg, hist, mIdx, mSt, fold, cIdx, cComplete, isDone, dropped, cut, lst>>
+       /\ UNCHANGED <<cfg, hist, mIdx, mSt, fold, cIdx, cComplete, isDone, dropped, cut, lst, mexp>>
 \* ---- append-only list
 Cnt(s) == IF s \in DOMAIN lst.n THEN lst.n[s] ELSE 0
-LPush == /\ Is("l_push") /\ lst' = [lst EXCEPT !.pushed = Ev.v] /\ UNCHANGED <<cfg, hist, mIdx, mSt, fold, cIdx, cComplete, isDone, dropped, cut, bad>>
+LPush == /\ Is("l_push") /\ lst' = [lst EXCEPT !.pushed = Ev.v] /\ UNCHANGED <<cfg, hist, mIdx, mSt, fold, cIdx, cComplete, isDone, dropped, cut, mexp, bad>>
 LRecv == /\ Is("l_recv")
          /\ lst' = [lst EXCEPT !.n = IF Ev.sub \in DOMAIN lst.n THEN [lst.n EXCEPT ![Ev.sub] = @ + 1] ELSE lst.n @@ (Ev.sub :> 1)]
          /\ bad' = FirstOf(<<
               <<Ev.v # Cnt(Ev.sub) + 1, "list subscriber received an element out of order, twice, or skipped one">>,
               <<Ev.v > lst.pushed, "list subscriber received an element that was never pushed">> >>)
-         /\ UNCHANGED <<cfg, hist, mIdx, mSt, fold, cIdx, cComplete, isDone, dropped, cut>>
-LDone == /\ Is("l_done") /\ isDone' = TRUE /\ UNCHANGED <<cfg, hist, mIdx, mSt, fold, cIdx, cComplete, dropped, cut, lst, bad>>
-LDrop == /\ Is("l_drop") /\ dropped' = TRUE /\ UNCHANGED <<cfg, hist, mIdx, mSt, fold, cIdx, cComplete, isDone, cut, lst, bad>>
+         /\ UNCHANGED <<cfg, hist, mIdx, mSt, fold, cIdx, cComplete, isDone, dropped, cut, mexp>>
+LDone == /\ Is("l_done") /\ isDone' = TRUE /\ UNCHANGED <<cfg, hist, mIdx, mSt, fold, cIdx, cComplete, dropped, cut, lst, mexp, bad>>
+LDrop == /\ Is("l_drop") /\ dropped' = TRUE /\ UNCHANGED <<cfg, hist, mIdx, mSt, fold, cIdx, cComplete, isDone, cut, lst, mexp, bad>>
 LEnd == /\ Is("l_end")
         /\ bad' = FirstOf(<<
              <<Ev.how = "Lagged", "append-only list subscriber lagged">>,
              <<Ev.how = "none" /\ (~isDone \/ Cnt(Ev.sub) # lst.pushed), "list subscription ended normally without all elements">>,
              <<Ev.how = "Closed" /\ ~dropped, "list subscription failed although the list was not dropped">>,
              <<Ev.how \notin {"none", "Closed", "Lagged"}, "list subscription failed: " \o Ev.how>> >>)
-        /\ UNCHANGED <<cfg, hist, mIdx, mSt, fold, cIdx, cComplete, isDone, dropped, cut, lst>>
+        /\ UNCHANGED <<cfg, hist, mIdx, mSt, fold, cIdx, cComplete, isDone, dropped, cut, lst, mexp>>
 LFin == /\ Is("l_fin")
         /\ bad' = FirstOf(<< <<Ev.pending > 0, "list subscribers neither finished nor failed (hang)">> >>)
-        /\ UNCHANGED <<cfg, hist, mIdx, mSt, fold, cIdx, cComplete, isDone, dropped, cut, lst>>
-Known == {"reset", "e_state", "e_sub", "e_mirror", "e_mirror_err", "e_mirror_again", "e_detach", "e_ev", "e_ev_end", "e_ev_err", "e_done", "e_drop",
+        /\ UNCHANGED <<cfg, hist, mIdx, mSt, fold, cIdx, cComplete, isDone, dropped, cut, lst, mexp>>
+Known == {"e_sub_stripped", "e_op", "reset", "e_state", "e_sub", "e_mirror", "e_mirror_err", "e_mirror_again", "e_detach", "e_ev", "e_ev_end", "e_ev_err", "e_done", "e_drop",
           "fault", "e_end", "l_push", "l_recv", "l_done", "l_drop", "l_end", "l_fin"}
-Skip == /\ l <= Len(Rec) /\ Ev.ev \notin Known /\ l' = l + 1 /\ UNCHANGED <<cfg, hist, mIdx, mSt, fold, cIdx, cComplete, isDone, dropped, cut, lst, bad>>
-Next == Reset \/ State \/ Sub \/ Mirror \/ MirrorErr \/ MirrorAgain \/ Detach \/ ConsEv \/ ConsEnd \/ ConsErr \/ Done \/ Drop \/ Fault \/ End
+Skip == /\ l <= Len(Rec) /\ Ev.ev \notin Known /\ l' = l + 1 /\ UNCHANGED <<cfg, hist, mIdx, mSt, fold, cIdx, cComplete, isDone, dropped, cut, lst, mexp, bad>>
+Next == Stripped \/ OpEv \/ MirrorStripped \/ MirrorErrStripped \/ DetachStripped \/ Reset \/ State \/ Sub \/ Mirror \/ MirrorErr \/ MirrorAgain \/ Detach \/ ConsEv \/ ConsEnd \/ ConsErr \/ Done \/ Drop \/ Fault \/ End
         \/ LPush \/ LRecv \/ LDone \/ LDrop \/ LEnd \/ LFin \/ Skip
 Spec == Init /\ [][Next]_vars
 Inv_C14 == bad = <<>> \/ bad[1] # "C14"
